@@ -261,6 +261,8 @@ class Workspace(AbstractContextManager):
                 "_extent",
                 "_visual_parameters",
             ]
+            # (the DEPTH data of a plain drillhole: the copy finds its own)
+            + ([] if isinstance(entity, Concatenated) else ["_depths"])
             + list(omit_list),
             attributes={"uid": None, "parent": None},
         )
